@@ -179,6 +179,17 @@ def tlc(module, cfg=None, workers=1, env=None, simulate=None, depth=None, seed=N
     """Run TLC on spec/<module>.tla with spec/<cfg>.  Returns a TLCResult.
     Raises MachineryError on anything that is not 'finished' or 'invariant violated'."""
     cfg = cfg or (module + '.cfg')
+    # Exploration runs do not depend on the tree under test.  Only for campaigns over many trees (bin/mutate, which
+    # sets VERIF_TLC_CACHE=1) their results are cached, keyed by the text of every spec file and the arguments;
+    # the registered commands never set the variable and always run TLC.
+    cache_path = None
+    if os.environ.get('VERIF_TLC_CACHE') == '1' and not (env and 'TRACE_FILE' in env):
+        cache_path = os.path.join(WORK_ROOT, 'tlc_cache', _spec_digest(
+            [module, cfg, simulate, depth, seed, coverage, dfs, sorted((env or {}).items())]) + '.pkl')
+        if os.path.exists(cache_path):
+            import pickle
+            with open(cache_path, 'rb') as f:
+                return pickle.load(f)
     wd = workdir(tag or module)
     opts = ['-XX:+UseParallelGC']
     if heap:
@@ -244,7 +255,29 @@ def tlc(module, cfg=None, workers=1, env=None, simulate=None, depth=None, seed=N
     if not res.ok and res.violated is None:
         tail = '\n'.join(out.splitlines()[-40:])
         raise MachineryError('TLC failed (%s):\n%s\n%s' % (res.cmd, tail, p.stderr[-2000:]))
+    if cache_path:
+        import pickle
+        os.makedirs(os.path.dirname(cache_path), exist_ok=True)
+        tmp = '%s.%d.tmp' % (cache_path, os.getpid())
+        with open(tmp, 'wb') as f:
+            pickle.dump(res, f)
+        os.replace(tmp, cache_path)
     return res
+
+
+_SPEC_DIGEST = []
+
+
+def _spec_digest(key):
+    if not _SPEC_DIGEST:
+        h = hashlib.sha1()
+        for n in sorted(os.listdir(SPEC_DIR)):
+            if n.endswith('.tla') or n.endswith('.cfg'):
+                with open(os.path.join(SPEC_DIR, n), 'rb') as f:
+                    h.update(n.encode())
+                    h.update(f.read())
+        _SPEC_DIGEST.append(h.hexdigest())
+    return hashlib.sha1((_SPEC_DIGEST[0] + json.dumps(key, default=str)).encode()).hexdigest()[:20]
 
 
 def _collect_printed(out):
@@ -559,7 +592,7 @@ class Report(object):
         }
         # evidence/<id>.json describes runs against /repo itself; a run against another tree (a seeded change in a
         # scratch worktree) writes its evidence under .work/ so that the registered evidence is never overwritten
-        edir = EVIDENCE_DIR if repo_path() == '/repo' else os.path.join(WORK_ROOT, 'evidence_other_tree')
+        edir = EVIDENCE_DIR if (repo_path() == '/repo' and os.environ.get('VERIF_TLC_CACHE') != '1') else os.path.join(WORK_ROOT, 'evidence_other_tree')
         os.makedirs(edir, exist_ok=True)
         path = os.path.join(edir, self.prop + '.json')
         tmp = path + '.tmp'
